@@ -84,7 +84,27 @@ def own_line_comment_at_decision_point(fail):
     return fail.get("kind") in ("no_final_newline", "statement_not_on_own_line") and fail.get("decision_point_comment") is True
 
 
-DETECTORS = {f.__name__: f for f in [
+def wider_more_lines_in_overflow_regime(fail):
+    """F24: some line cannot fit the narrower limit at all (forced overflow): penalties of overflowing
+    solutions are traded against break penalties and widening can add a line"""
+    return fail.get("kind") == "wider_more_lines" and fail.get("narrow_overflows") is True
+
+
+def wider_more_lines_cheaper_break_kind(fail):
+    """F26: clause 2 of C11 is false for a penalty-based wrapper: a cheaper kind of break (e.g. inside
+    the parameter list, 3 per break) can become feasible only at the wider limit and is then preferred
+    to a more expensive single break (before the return type, 2^8) although it needs more lines"""
+    return fail.get("kind") == "wider_more_lines" and fail.get("narrow_overflows") is False
+
+
+def mlstring_width_dependence(fail):
+    """F25: a multi-line string inside a wrapped line: the wrapper measures the literal's last line
+    around its re-indentation, so the chosen wrapping of what follows the literal depends on the limit
+    even when everything fits (same root as F6)"""
+    return fail.get("kind") == "width_is_style_switch" and "'''" in _text(fail)
+
+
+DETECTORS = {f.__name__: f for f in [wider_more_lines_in_overflow_regime, wider_more_lines_cheaper_break_kind, mlstring_width_dependence,
     cr_after_line_comment_in_region, literal_then_gap, mlstring_in_child_line_reflow,
     trailing_exotic_blank_in_line_comment, unterminated_literal_trailing_blank, continuation_saturates,
     nesting_depth, cursor_mid_char_changed_token, cursor_u16_truncation, mlstring_last_terminator_lone_cr,
